@@ -9,7 +9,7 @@
      blk[x]  - executor x still holds inject / job-script blocks of an earlier query
      fnd[x]  - executor x still holds extended metadata found in an earlier query
    An operation is one (query, metadata) handled on an executor:
-     kind   decl | enum | block | ext | plain        what its metadata declares
+     kind   decl | decldef | enum | block | ext | plain   what its metadata declares
      out    ok | tfail | rfail | mfail               succeeds / the translation (write) raises after
                                                      the metadata was applied / the client-side
                                                      rewrite raises after the metadata was applied
@@ -28,7 +28,10 @@ EXTENDS Naturals, Sequences, TLC, Json
 
 CONSTANTS MaxLen, Impl
 
-Kinds == {"decl", "enum", "block", "ext", "plain"}
+\* decldef: declares a method of a class that already carries built-in default declarations
+\* (ATLAS xAOD::TruthParticle), whose table is re-installed by every reset
+Kinds == {"decl", "decldef", "enum", "block", "ext", "plain"}
+Decls == {"decl", "decldef"}
 Outs  == {"ok", "tfail", "rfail", "mfail"}
 Execs == {"same", "other", "otherbk"}
 Op == [kind : Kinds, out : Outs, on : Execs]
@@ -44,9 +47,9 @@ Init == hist = <<>> /\ Pristine
 \* as the code stood: metadata items mutate the registries as they are processed; reset()
 \* (blocks, ext md of this executor, method registry) runs only at the end of a successful write
 ApplyImpl(op) ==
-  LET applied == op.out \in {"ok", "tfail", "rfail"} \/ op.kind \in {"decl", "enum"}   \* mfail: items before the bad one
+  LET applied == op.out \in {"ok", "tfail", "rfail"} \/ op.kind \in Decls \cup {"enum"}   \* mfail: items before the bad one
       didReset == op.out = "ok" IN
-  /\ mt' = IF didReset THEN FALSE ELSE (mt \/ (op.kind = "decl" /\ applied))
+  /\ mt' = IF didReset THEN FALSE ELSE (mt \/ (op.kind \in Decls /\ applied))
   /\ en' = (en \/ (op.kind = "enum" /\ applied))
   /\ shared' = (shared \/ op.kind = "ext")
   /\ blk' = [blk EXCEPT ![op.on] = IF didReset THEN FALSE ELSE (@ \/ (op.kind = "block" /\ op.out \in {"tfail", "rfail"}))]
